@@ -1,0 +1,394 @@
+//! Verification hooks (`--cfg rosu_pp_verif`) for the osu!→mania pattern generators:
+//!
+//! * `run_hit` / `run_path` / `run_end` run ONE generator call in isolation on chosen inputs and
+//!   return the produced notes, the `stair_type` and the PRNG state afterwards;
+//! * `convert_traced` runs the real `convert` and records, per source object, which generator ran,
+//!   with which `convert_type`, what it produced and the PRNG state afterwards.
+
+use std::cell::RefCell;
+
+use rosu_map::{section::hit_objects::hit_samples::HitSoundType, util::Pos};
+
+use crate::{
+    mania::object::ManiaObject,
+    model::{
+        beatmap::Beatmap,
+        hit_object::{HitObject, HitObjectKind, HoldNote},
+    },
+    util::random::osu::Random,
+    GameMods,
+};
+
+use super::{
+    pattern::{verif_column_to_pos, Pattern},
+    pattern_generator::{
+        end_time_object::EndTimeObjectPatternGenerator, hit_object::HitObjectPatternGenerator,
+        path_object::PathObjectPatternGenerator,
+    },
+    pattern_type::PatternType,
+    PrevValues,
+};
+
+/// A generated object.
+#[derive(Copy, Clone, Debug, PartialEq)]
+pub struct Note {
+    /// `pos.x`
+    pub x: f32,
+    /// `ManiaObject::column(pos.x, total_columns)`
+    pub column: usize,
+    pub start_time: f64,
+    /// `None` for a circle
+    pub duration: Option<f64>,
+}
+
+fn notes_of(pattern: &Pattern, total_columns: i32) -> Vec<Note> {
+    pattern
+        .hit_objects
+        .iter()
+        .map(|h| Note {
+            x: h.pos.x,
+            column: ManiaObject::column(h.pos.x, total_columns as f32),
+            start_time: h.start_time,
+            duration: match h.kind {
+                HitObjectKind::Hold(HoldNote { duration }) => Some(duration),
+                _ => None,
+            },
+        })
+        .collect()
+}
+
+/// Result of an isolated generator run.
+#[derive(Clone, Debug)]
+pub struct GenResult {
+    /// One pattern (hit-object / end-time generator) or one or two (path generator).
+    pub patterns: Vec<Vec<Note>>,
+    pub rng: [u32; 4],
+    /// `stair_type` after `generate()` (hit-object generator; unchanged otherwise).
+    pub stair: u16,
+    pub conversion_difficulty: f64,
+}
+
+fn prev_pattern(prev: &[u8], total_columns: i32) -> Pattern {
+    let mut pattern = Pattern::default();
+
+    for &column in prev {
+        let pos = verif_column_to_pos(column, total_columns);
+
+        let obj = HitObject {
+            pos: Pos::new(pos, pos),
+            start_time: 0.0,
+            kind: HitObjectKind::Circle,
+        };
+
+        pattern.add_object(obj, column);
+    }
+
+    pattern
+}
+
+/// One `HitObjectPatternGenerator::generate()` call with the given `convert_type` / `stair_type`,
+/// previous pattern (columns of its objects, in order) and PRNG state. `map` only feeds
+/// `conversion_difficulty()`.
+#[allow(clippy::too_many_arguments)]
+pub fn run_hit(
+    map: &Beatmap,
+    total_columns: i32,
+    rng: [u32; 4],
+    x: f32,
+    sample: u8,
+    convert_type: u16,
+    stair: u16,
+    prev: &[u8],
+) -> GenResult {
+    let obj = HitObject {
+        pos: Pos::new(x, 0.0),
+        start_time: 0.0,
+        kind: HitObjectKind::Circle,
+    };
+
+    let prev = PrevValues {
+        time: 0.0,
+        pos: Pos::default(),
+        pattern: prev_pattern(prev, total_columns),
+        stair: PatternType::verif_from_bits(stair),
+    };
+
+    let mut random = Random::verif_from_state(rng);
+
+    let mut gen = HitObjectPatternGenerator::new(
+        &mut random,
+        &obj,
+        HitSoundType::from(sample),
+        total_columns,
+        &prev,
+        0.0,
+        map,
+    );
+
+    gen.verif_set_convert_type(convert_type);
+    let conversion_difficulty = gen.inner.verif_conversion_difficulty();
+    let pattern = gen.generate();
+    let stair = gen.stair_type.verif_bits();
+    let rng = gen.inner.verif_rng();
+
+    GenResult {
+        patterns: vec![notes_of(&pattern, total_columns)],
+        rng,
+        stair,
+        conversion_difficulty,
+    }
+}
+
+/// One `PathObjectPatternGenerator::generate()` call; the values `new` derives from the map and the
+/// slider (`convert_type`, span count, start / end time, segment duration) are overridden.
+#[allow(clippy::too_many_arguments)]
+pub fn run_path(
+    map: &Beatmap,
+    total_columns: i32,
+    rng: [u32; 4],
+    x: f32,
+    sample: u8,
+    convert_type: u16,
+    prev: &[u8],
+    span_count: i32,
+    start_time: i32,
+    end_time: i32,
+    segment_duration: i32,
+    node_sounds: &[u8],
+) -> GenResult {
+    let obj = HitObject {
+        pos: Pos::new(x, 0.0),
+        start_time: f64::from(start_time),
+        kind: HitObjectKind::Circle,
+    };
+
+    let prev = prev_pattern(prev, total_columns);
+    let node_sounds: Vec<HitSoundType> = node_sounds.iter().map(|s| HitSoundType::from(*s)).collect();
+    let mut random = Random::verif_from_state(rng);
+
+    let mut gen = PathObjectPatternGenerator::new(
+        &mut random,
+        &obj,
+        HitSoundType::from(sample),
+        total_columns,
+        &prev,
+        map,
+        0,
+        None,
+        &node_sounds,
+    );
+
+    gen.verif_override(convert_type, span_count, start_time, end_time, segment_duration);
+    let conversion_difficulty = gen.inner.verif_conversion_difficulty();
+    let patterns = gen.generate();
+    let rng = gen.inner.verif_rng();
+
+    GenResult {
+        patterns: patterns.iter().map(|p| notes_of(p, total_columns)).collect(),
+        rng,
+        stair: 0,
+        conversion_difficulty,
+    }
+}
+
+/// One `EndTimeObjectPatternGenerator::generate()` call.
+pub fn run_end(
+    map: &Beatmap,
+    total_columns: i32,
+    rng: [u32; 4],
+    sample: u8,
+    prev: &[u8],
+    start_time: f64,
+    end_time: f64,
+) -> GenResult {
+    let obj = HitObject {
+        pos: Pos::new(256.0, 192.0),
+        start_time,
+        kind: HitObjectKind::Circle,
+    };
+
+    let prev = prev_pattern(prev, total_columns);
+    let mut random = Random::verif_from_state(rng);
+
+    let mut gen = EndTimeObjectPatternGenerator::new(
+        &mut random,
+        &obj,
+        end_time,
+        HitSoundType::from(sample),
+        total_columns,
+        &prev,
+        map,
+    );
+
+    let conversion_difficulty = gen.inner.verif_conversion_difficulty();
+    let pattern = gen.generate();
+    let rng = gen.inner.verif_rng();
+
+    GenResult {
+        patterns: vec![notes_of(&pattern, total_columns)],
+        rng,
+        stair: 0,
+        conversion_difficulty,
+    }
+}
+
+/// What `convert` did for one source object.
+#[derive(Clone, Debug)]
+pub enum TraceObj {
+    Circle {
+        x: f32,
+        start_time: f64,
+        sample: u8,
+        /// `convert_type` as computed by `HitObjectPatternGenerator::new`
+        convert_type: u16,
+        /// `last_values.stair` before / `gen.stair_type` after
+        stair_before: u16,
+        stair_after: u16,
+        /// columns of `last_values.pattern`'s objects before the call
+        prev: Vec<usize>,
+        notes: Vec<Note>,
+        rng: [u32; 4],
+    },
+    Slider {
+        x: f32,
+        sample: u8,
+        /// `convert_type` as computed by `PathObjectPatternGenerator::new`
+        convert_type: u16,
+        span_count: i32,
+        start_time: i32,
+        end_time: i32,
+        segment_duration: i32,
+        node_sounds: Vec<u8>,
+        patterns: Vec<Vec<Note>>,
+        rng: [u32; 4],
+    },
+    Spinner {
+        sample: u8,
+        /// `convert_type` as computed by `EndTimeObjectPatternGenerator::new`
+        convert_type: u16,
+        start_time: f64,
+        end_time: f64,
+        notes: Vec<Note>,
+        rng: [u32; 4],
+    },
+}
+
+/// The trace of one `convert` call.
+#[derive(Clone, Debug, Default)]
+pub struct Trace {
+    pub seed: i32,
+    pub total_columns: i32,
+    /// `conversion_difficulty()` (the same for every object); `None` if no generator ran
+    pub conversion_difficulty: Option<f64>,
+    pub objects: Vec<TraceObj>,
+}
+
+thread_local! {
+    static TRACE: RefCell<Option<Trace>> = const { RefCell::new(None) };
+}
+
+fn with_trace(f: impl FnOnce(&mut Trace)) {
+    TRACE.with(|t| {
+        if let Some(trace) = t.borrow_mut().as_mut() {
+            f(trace);
+        }
+    });
+}
+
+/// Runs the real `convert` on a copy of `map` (which must be an unconverted osu! map) with tracing
+/// switched on for this thread.
+pub fn convert_traced(map: &Beatmap, mods: &GameMods) -> (Beatmap, Trace) {
+    TRACE.with(|t| *t.borrow_mut() = Some(Trace::default()));
+    let mut out = map.clone();
+    super::convert(&mut out, mods);
+    let trace = TRACE.with(|t| t.borrow_mut().take()).unwrap_or_default();
+
+    (out, trace)
+}
+
+pub(super) fn trace_begin(seed: i32, total_columns: i32) {
+    with_trace(|t| {
+        t.seed = seed;
+        t.total_columns = total_columns;
+    });
+}
+
+pub(super) fn trace_circle(
+    gen: &HitObjectPatternGenerator<'_>,
+    last_values: &PrevValues,
+    pattern: &Pattern,
+) {
+    with_trace(|t| {
+        let total = gen.inner.total_columns;
+        t.conversion_difficulty = Some(gen.inner.verif_conversion_difficulty());
+
+        t.objects.push(TraceObj::Circle {
+            x: gen.inner.hit_object.pos.x,
+            start_time: gen.inner.hit_object.start_time,
+            sample: u8::from(gen.sample),
+            convert_type: gen.verif_convert_type(),
+            stair_before: last_values.stair.verif_bits(),
+            stair_after: gen.stair_type.verif_bits(),
+            prev: notes_of(&last_values.pattern, total)
+                .iter()
+                .map(|n| n.column)
+                .collect(),
+            notes: notes_of(pattern, total),
+            rng: gen.inner.verif_rng(),
+        });
+    });
+}
+
+pub(super) fn trace_slider_begin(gen: &PathObjectPatternGenerator<'_>) {
+    with_trace(|t| {
+        let (convert_type, span_count, start_time, end_time) = gen.verif_params();
+        t.conversion_difficulty = Some(gen.inner.verif_conversion_difficulty());
+
+        t.objects.push(TraceObj::Slider {
+            x: gen.inner.hit_object.pos.x,
+            sample: u8::from(gen.sample),
+            convert_type,
+            span_count,
+            start_time,
+            end_time,
+            segment_duration: gen.segment_duration,
+            node_sounds: gen.verif_node_sounds().iter().map(|s| u8::from(*s)).collect(),
+            patterns: Vec::new(),
+            rng: [0; 4],
+        });
+    });
+}
+
+pub(super) fn trace_slider_pattern(pattern: &Pattern) {
+    with_trace(|t| {
+        let total = t.total_columns;
+
+        if let Some(TraceObj::Slider { patterns, .. }) = t.objects.last_mut() {
+            patterns.push(notes_of(pattern, total));
+        }
+    });
+}
+
+pub(super) fn trace_slider_end(gen: &PathObjectPatternGenerator<'_>) {
+    with_trace(|t| {
+        if let Some(TraceObj::Slider { rng, .. }) = t.objects.last_mut() {
+            *rng = gen.inner.verif_rng();
+        }
+    });
+}
+
+pub(super) fn trace_spinner(gen: &EndTimeObjectPatternGenerator<'_>, pattern: &Pattern) {
+    with_trace(|t| {
+        let total = gen.inner.total_columns;
+        t.conversion_difficulty = Some(gen.inner.verif_conversion_difficulty());
+
+        t.objects.push(TraceObj::Spinner {
+            sample: u8::from(gen.sample),
+            convert_type: gen.verif_convert_type(),
+            start_time: gen.inner.hit_object.start_time,
+            end_time: gen.end_time,
+            notes: notes_of(pattern, total),
+            rng: gen.inner.verif_rng(),
+        });
+    });
+}
